@@ -12,7 +12,7 @@ Inductive nop :=
 | OpIsScalar (t : styp) | OpIsMapping | OpIsSequence | OpIsEmpty
 | OpGetValue | OpSetValue (v : sval) | OpMakeMapping
 | OpU2D | OpD2U
-| OpRemoveDefaults (defaults : list (ustring * value))
+| OpRemoveDefaults (params : list (ustring * option value)) (overrides : list (ustring * value))
 | OpSeqToMap (a k : ustring) (va : option ustring) (strict : bool)
 | OpMapToSeq (a k : ustring) (va : option ustring)
 | OpIndexToMap (a k : ustring) (va : option ustring)
@@ -42,7 +42,7 @@ Definition step (o : oracle) (n : node) (op : nop) : node * oret :=
   | OpMakeMapping => (make_mapping n, RNone)
   | OpU2D => ret_of_node n (unders_to_dashes_in_keys n)
   | OpD2U => ret_of_node n (dashes_to_unders_in_keys n)
-  | OpRemoveDefaults d => ret_of_node n (remove_defaults o d n)
+  | OpRemoveDefaults ps ov => ret_of_node n (remove_defaults o (defaulted_attributes ps ov) n)
   | OpSeqToMap a k va s => ret_of_node n (seq_attribute_to_map a k va s n)
   | OpMapToSeq a k va => ret_of_node n (map_attribute_to_seq a k va n)
   | OpIndexToMap a k va => ret_of_node n (index_attribute_to_map a k va n)
